@@ -34,9 +34,12 @@ type c04Line struct {
 }
 
 type c04Case struct {
-	Lines   []c04Line       `json:"lines"`
-	Options []c04Line       `json:"options"`
-	Vars    map[string]mval `json:"vars"`
+	// FailFirst: the dialogue starts with lines whose inline expressions fail (text before and after them): the
+	// errors must not leak anything into the elements rendered afterwards
+	FailFirst bool            `json:"fail_first,omitempty"`
+	Lines     []c04Line       `json:"lines"`
+	Options   []c04Line       `json:"options"`
+	Vars      map[string]mval `json:"vars"`
 }
 
 func (l c04Line) source(option bool) string {
@@ -69,6 +72,9 @@ func (l c04Line) source(option bool) string {
 func (c c04Case) script() string {
 	var b strings.Builder
 	b.WriteString("title: Start\n---\n")
+	if c.FailFirst {
+		b.WriteString("left over [b\nYou own {$undeclared_variable} things\n-> Buy for {nosuchfunction(1)} coins\n-> Leave\nseparator\n")
+	}
 	for _, l := range c.Lines {
 		b.WriteString(l.source(false) + "\n")
 	}
@@ -184,6 +190,17 @@ func runC04(c c04Case) Verdict {
 	}
 	escapes, interpolations, tagsAndComment := 0, 0, false
 	cls := []string{}
+	if c.FailFirst {
+		for i := 0; i < 3; i++ { // a failing line, a failing option group, a line whose markup fails
+			if ev := h.step(0); ev.K != "err" {
+				return failf("the %d. deliberately failing element did not fail: %s\nscript:\n%s", i+1, ev, src)
+			}
+		}
+		if ev := h.step(0); ev.K != "line" || ev.Text != "separator" {
+			return failf("after three failing elements the line \"separator\" is rendered as %s\nscript:\n%s", ev, src)
+		}
+		cls = append(cls, "after-failing-elements")
+	}
 	for i, l := range c.Lines {
 		ev := h.step(0)
 		if ev.K != "line" {
@@ -419,7 +436,7 @@ func genC04Line(t *rapid.T, c *c04Case, option bool) c04Line {
 var c04Render = Register(Prop[c04Case]{
 	ID: "C04", Name: "rendering",
 	Gen: func(t *rapid.T) c04Case {
-		c := c04Case{Vars: map[string]mval{}}
+		c := c04Case{Vars: map[string]mval{}, FailFirst: rapid.IntRange(0, 4).Draw(t, "failfirst") == 0}
 		nl := rapid.IntRange(1, 3).Draw(t, "lines")
 		for i := 0; i < nl; i++ {
 			c.Lines = append(c.Lines, genC04Line(t, &c, false))
